@@ -27,6 +27,27 @@ def function_level_vectors(ctx, family):
                        extra_replay=["--nv", nv, "--seed", ctx.seed], timeout=1500)
 
 
+ORDERS3 = ["123", "132", "213", "231", "312", "321"]
+
+
+def ite_key_checks(ctx):
+    """RobddAlgo: the standard-triple normalisation (Ite::new) is key-sound (design level) and the real Ite::new
+    yields a sound key - in fact the model's key - on every triple (conformance)."""
+    for o in ("12", "21"):
+        model_check(ctx, "MC_RobddAlgo", "MC_RobddAlgo_2_%s.cfg" % o, "KeySound / IteRec / CondRec for all 4096 triples of 2-variable functions, order %s" % o,
+                    workers=2, timeout=600)
+        cfg = mkcfg(ctx, "GenIte_2_%s.cfg" % o, "SPECIFICATION Spec\nCONSTANTS\n  NV = 2\n  Ord <- Ord%s\n  Sample = 1\n  Seed = 0\nCHECK_DEADLOCK FALSE\n" % o)
+        gen_and_replay(ctx, "GenIte", cfg, "itevec", "Ite::new on all triples of 2-variable functions, order %s" % o, extra_replay=["--nv", 2])
+    orders = ORDERS3 if not ctx.quick else [ORDERS3[ctx.seed % 6], ORDERS3[(ctx.seed + 3) % 6]]
+    for o in orders:
+        if not ctx.quick:
+            model_check(ctx, "MC_RobddAlgo", "MC_RobddAlgo_3_%s.cfg" % o, "KeySound / CondRec for all 16.7M triples of 3-variable functions, order %s" % o,
+                        workers=16, timeout=3000, xmx="8g")
+        cfg = mkcfg(ctx, "GenIte_3_%s.cfg" % o, "SPECIFICATION Spec\nCONSTANTS\n  NV = 3\n  Ord <- Ord%s\n  Sample = %d\n  Seed = %d\nCHECK_DEADLOCK FALSE\n"
+                    % (o, 64 if ctx.quick else 8, ctx.seed % (64 if ctx.quick else 8)))
+        gen_and_replay(ctx, "GenIte", cfg, "itevec", "Ite::new on sampled triples of 3-variable functions, order %s" % o, extra_replay=["--nv", 3], timeout=1500)
+
+
 def C01(ctx):
     ctx.assumptions += [
         "denotational oracle = spec/BoolFn.tla, cross-checked against algebraic laws by TLC (MC_BoolFn)",
@@ -34,6 +55,7 @@ def C01(ctx):
         "universe bounded: at most NV<=6 variables per builder; pool of 12 live diagrams",
     ]
     model_check(ctx, "MC_BoolFn", "MC_BoolFn.cfg", "vocabulary laws (oracle self-check)", workers=1, timeout=300)
+    ite_key_checks(ctx)
     function_level_vectors(ctx, "bddvec")
     if ctx.quick:
         jobs = bdd_jobs(ctx, "c01", 8, 4, 200, 5)
@@ -77,6 +99,8 @@ def C16(ctx):
         "cache eviction and growth are forced by the rsdd_verif initial-capacity hook (2^0 .. 2^4 slots)",
     ]
     model_check(ctx, "Lru", "MC_Lru.cfg", "Lru (as coded) refines LossyMap: 3 keys, 4 hashes, cap 2^0->2^2", workers=6)
+    # a memo in front of a deterministic function is transparent iff its key determines the answer: KeySound
+    ite_key_checks(ctx)
     gen_and_replay(ctx, "GenLru", "GenLru.cfg" if ctx.quick else "GenLru_big.cfg", "lru",
                    "all insert/get sequences of the bounded Lru model")
     n = 4 if ctx.quick else 24
